@@ -850,23 +850,17 @@ def main(tier):
         if f:
             known['C15.' + name[4:]] = (f['what'], C15.log_class(sc))
     timeout = 8000 if tier == 'quick' else 60000
-    inlined = set()
     rename = lambda n: 'C03.' + n[4:] if n.startswith('C15.') else n
-    for fname, entry, post, onv, mode in families(tier):
-        if mode in ('decode-contract', 'c15-decode-contract'):
-            E.MODELS[C15.TPV_KEY] = C15._decode_contract
-        try:
-            if mode == 'default':
-                ref = C15.refuter('default', driver=REPLAY, key_fn=default_key)
-            elif mode == 'c15':
-                ref = C15.refuter(C15.kind_of(fname), driver=C15.REPLAY)
-            else:
-                ref = None
-            fr = verify.verify_function(Scoped(chk), fname, entry, post, known=known, on_violation=onv, witness_terms=witness_terms,
-                                        timeout_ms=timeout, deadline_s=3600, path_timeout_ms=30000, only=keep, rename=rename, refute=ref)
-        finally:
-            E.MODELS.pop(C15.TPV_KEY, None)
-        inlined |= fr.inlined
+    common = dict(known=known, witness_terms=witness_terms, timeout_ms=timeout, deadline_s=3600, path_timeout_ms=30000, only=keep, rename=rename)
+
+    def per_family(fname, mode):
+        if mode == 'default':
+            return {'refute': C15.refuter('default', driver=REPLAY, key_fn=default_key)}
+        if mode == 'c15':
+            return {'refute': C15.refuter(C15.kind_of(fname), driver=C15.REPLAY)}
+        return {}
+    inlined = C15.run_families(chk, families(tier), Scoped, common, per_family=per_family,
+                               models=lambda mode: {C15.TPV_KEY: C15._decode_contract} if mode in ('decode-contract', 'c15-decode-contract') else {})
     chk.extra['inlined_real_functions'] = sorted(inlined)
     # ---- construction frames
     frame_obligations(chk)
